@@ -77,6 +77,10 @@ def alph_c10():
         # ambiguous bare names in a join condition
         join("inner", [from_("u")], bin_("==", k, k)),
         join("left", [from_("u")], bin_("==", a, c), explicit=True),
+        # a column computed on the left under the name of a column the joined relation brings: a later bare
+        # reference has two candidates (one declared directly in the frame, one behind the joined relation)
+        derive(item(bin_("+", a, lit(1)), "c")), select(item(k), item(bin_("*", b, lit(2)), "c")),
+        select(item("c")), filter_(bin_(">", c, lit(0))), sort(("asc", "c")),
         # surplus positional argument
         bad("surplus-arg", "take 2 3"), bad("surplus-arg", "filter (a > 0) (b > 0)"),
         bad("surplus-arg", "sort {a} {b}"), bad("surplus-arg", "select {k} {a}"),
